@@ -8,6 +8,7 @@ func init() {
 	verifRegister("VerifC08_KPkg", VerifC08_KPkg)
 	verifRegister("VerifC08_EPkgCall", VerifC08_EPkgCall)
 	verifRegister("VerifC08_KUnbindable", VerifC08_KUnbindable)
+	verifRegister("VerifC08_KUse", VerifC08_KUse)
 }
 
 // reference model: bindings per package, export lists (in order), current package
@@ -235,5 +236,62 @@ func VerifC08_KUnbindable() {
 	}
 	t := env.LoadString("f", "(list true false :k)")
 	vAssert(t.String() == "'(true false :k)", "true, false and keywords still evaluate to themselves: "+t.String())
+	vCover("end")
+}
+
+// use-package copies EXACTLY the exported bindings of the named package AS THEY ARE AT THAT MOMENT —
+// also over a binding of the same name the using package already has, and again on a later
+// use-package after the source package rebound its exports.  Values symbolic; which of the three
+// names the using package pre-binds, which the source rebinds, and how (set / defun) solver-chosen.
+func VerifC08_KUse() {
+	env := newEnv(nil)
+	v1, v2, v3 := vndInt("v1"), vndInt("v2"), vndInt("v3")
+	for n, v := range map[string]int{"v1": v1, "v2": v2, "v3": v3} {
+		env.PutGlobal(lisp.Symbol("user:"+n), lisp.Int(v))
+	}
+	r := evalSrc(env, "(in-package 'src) (export 'a 'b) (set 'a user:v1) (set 'b user:v1) (set 'hidden user:v1) (in-package 'dst)")
+	vAssert(r.Type != lisp.LError, "packages set up: "+outcome(r))
+	pre := vConcInt(vndChoice("prebind", 4)) // 0 nothing, 1 a as value, 2 a as function, 3 hidden
+	switch pre {
+	case 1:
+		evalSrc(env, "(set 'a user:v2)")
+	case 2:
+		evalSrc(env, "(defun a () 'mine)")
+	case 3:
+		evalSrc(env, "(set 'hidden user:v2)")
+	}
+	u1 := evalSrc(env, "(use-package 'src)")
+	vAssert(u1.Type != lisp.LError, "use-package succeeds")
+	a1 := evalSrc(env, "a")
+	vAssert(a1.Type == lisp.LInt && a1.Int == v1, "after use-package the exported name has the source package's binding as it was at that moment, also over a binding the using package already had: "+outcome(a1))
+	if pre == 3 {
+		h := evalSrc(env, "hidden")
+		vAssert(h.Type == lisp.LInt && h.Int == v2, "a name that is not exported is not touched")
+	}
+	// the source rebinds its exports; nothing changes in the user until it uses the package again
+	how := vConcInt(vndChoice("rebind", 3))
+	switch how {
+	case 0:
+		evalSrc(env, "(set 'src:a user:v3)")
+	case 1:
+		evalSrc(env, "(in-package 'src) (set 'a user:v3) (set 'b user:v3) (in-package 'dst)")
+	case 2:
+		evalSrc(env, "(in-package 'src) (defun a () 'redefined) (in-package 'dst)")
+	}
+	a2 := evalSrc(env, "a")
+	vAssert(a2.Type == lisp.LInt && a2.Int == v1, "a later rebinding in the source package is not seen through an earlier use-package")
+	u2 := evalSrc(env, "(use-package 'src)")
+	vAssert(u2.Type != lisp.LError, "use-package again succeeds")
+	a3 := evalSrc(env, "a")
+	if how == 2 {
+		vAssert(a3.Type == lisp.LFun, "using the package again copies the binding as it is NOW: "+outcome(a3))
+	} else {
+		vAssert(a3.Type == lisp.LInt && a3.Int == v3, "using the package again copies the binding as it is NOW: "+outcome(a3))
+	}
+	if how == 1 {
+		b3 := evalSrc(env, "b")
+		vAssert(b3.Type == lisp.LInt && b3.Int == v3, "every export, not only the first")
+	}
+	cleanRuntime(env, "dst")
 	vCover("end")
 }
